@@ -1,7 +1,7 @@
 """pyvc.methods — builtin functions and methods of builtin types."""
 import z3
 
-from .values import (SNum, SBool, SBytes, Opaque, Obj, SList, Unsupported, to_term, to_bool_term, mk_num, mk_bool,
+from .values import (SNum, SBool, SBytes, Opaque, OpaqueSeq, Obj, SList, Unsupported, to_term, to_bool_term, mk_num, mk_bool,
                      fresh_name)
 from .interp import (PyExc, raise_builtin, BEXC, BCls, Cls, Func, BoundMethod, Builtin, ExtModule, Module,
                      _MISSING, is_subclass)
@@ -32,6 +32,8 @@ def install_builtins(M):
         if isinstance(v, (list, tuple, dict, str, bytes, bytearray, set, frozenset, range)):
             return len(v)
         if isinstance(v, SList):
+            return mk_num(v.len)
+        if isinstance(v, OpaqueSeq):
             return mk_num(v.len)
         if isinstance(v, Opaque):
             n = SNum(z3.Int(fresh_name('opqlen')))
@@ -122,6 +124,20 @@ def install_builtins(M):
             if r is None:
                 raise_builtin('ValueError', 'invalid literal for int()')
             return r
+        if isinstance(v, HexBytes) and base == 16:
+            n = v.src.known_len()
+            if n is None:
+                if it.light:
+                    # hex digits of an unknown-length string: an unknown non-negative integer, or ValueError for ''
+                    if it.branch(v.src.len == 0):
+                        raise_builtin('ValueError', 'invalid literal for int() with base 16')
+                    r = SNum(z3.Int(fresh_name('hexval')))
+                    it.p.assume(r.t >= 0)
+                    return r
+                n = it.p.concretize(v.src.len, limit=40, what='int(hex) length')
+            if n == 0:
+                raise_builtin('ValueError', 'invalid literal for int() with base 16')
+            return mk_num(v.src.be_int(0, n))
         if isinstance(v, SBytes):
             raise Unsupported('int() of symbolic bytes')
         raise_builtin('TypeError', 'int() argument must be a string or a number')
@@ -252,15 +268,29 @@ def install_builtins(M):
         if not a:
             return []
         v = a[0]
+        if isinstance(v, OpaqueSeq):
+            return OpaqueSeq(v.len, v.why, 'list')
         if isinstance(v, Opaque):
             return it.opaque('list of opaque', 'list')
         if isinstance(v, SStr):
             raise Unsupported('list() of structured string')
         return list(it.iterate(v))
     b['list'] = Builtin('list', f_list)
-    b['tuple'] = Builtin('tuple', lambda it, a, kw: tuple(f_list(it, a, kw)) if a else ())
-    b['set'] = Builtin('set', lambda it, a, kw: set(f_list(it, a, kw)) if a else set())
-    b['frozenset'] = Builtin('frozenset', lambda it, a, kw: frozenset(f_list(it, a, kw)) if a else frozenset())
+    def _conv(ctor):
+        def f(it, a, kw):
+            if not a:
+                return ctor()
+            r = f_list(it, a, kw)
+            if isinstance(r, Opaque):
+                return r
+            try:
+                return ctor(r)
+            except TypeError:
+                raise_builtin('TypeError', 'unhashable type')
+        return f
+    b['tuple'] = Builtin('tuple', _conv(tuple))
+    b['set'] = Builtin('set', _conv(set))
+    b['frozenset'] = Builtin('frozenset', _conv(frozenset))
 
     def f_dict(it, a, kw):
         d = {}
@@ -280,7 +310,12 @@ def install_builtins(M):
 
     def f_range(it, a, kw):
         if all(isinstance(x, int) for x in a):
-            return range(*a)
+            try:
+                return range(*a)
+            except ValueError as e:
+                raise_builtin('ValueError', str(e))
+        if it.light and any(isinstance(x, (SNum, Opaque)) for x in a):
+            return it.opaque('range with a symbolic bound', 'range')
         vals = []
         for x in a:
             if isinstance(x, SNum):
@@ -289,7 +324,10 @@ def install_builtins(M):
                 vals.append(x)
             else:
                 raise_builtin('TypeError', 'range() integer argument expected')
-        return range(*vals)
+        try:
+            return range(*vals)
+        except ValueError as e:
+            raise_builtin('ValueError', str(e))
     b['range'] = Builtin('range', f_range)
     b['xrange'] = b['range']
 
